@@ -133,10 +133,15 @@ Define(d, o, dp) ==
 
 HasView == "obs" \in DOMAIN E /\ "view" \in DOMAIN E.obs
 
+(* hydrate() and parents() agree with the reads the view is projected from (keys / get / length / text): the harness
+   compares them on the same reader and logs the first disagreement ("" = none) *)
+HydOK(rec, p) == Chk(p, "hydrate-and-parents-agree-with-the-other-reads", "hyd" \in DOMAIN rec => rec.hyd = "")
+
 ObsOK(opsTab) ==
   HasView => /\ ViewChk("C02", "view-equals-interpretation-of-applied-ops",
                         OpsOf(opsTab, S(E.obs.applied)), E.obs.view)
              /\ RichOK(OpsOf(opsTab, S(E.obs.applied)), E.obs.view, "C02")
+             /\ HydOK(E.obs, "C02")
 
 (* C25 expand rule: a transaction consisting of one pure insertion into a text object places its
    first new element on the side of every mark boundary that the mark's expand flag asks for *)
@@ -155,6 +160,7 @@ IsoOK(opsTab) ==
   (Len(E.iso) > 0 /\ "calls" \in DOMAIN E /\ Len(E.calls) > 0 /\ "before" \in DOMAIN E.calls[1]) =>
      /\ ViewChk("C29", "isolated-reads-show-the-state-at-the-isolation-heads",
                 OpsOf(ops, Anc(deps, S(E.iso[1]))), E.calls[1].before)
+     /\ \A ci \in DOMAIN E.calls : HydOK(E.calls[ci], "C29")
      /\ (HasView => /\ ViewChk("C29", "after-commit-document-is-merge-of-isolated-change",
                                 OpsOf(opsTab, S(E.obs.applied)), E.obs.view)
                      /\ RichOK(OpsOf(opsTab, S(E.obs.applied)), E.obs.view, "C29"))
@@ -193,6 +199,7 @@ ReadAt ==
          O == OpsOf(ops, A)
      IN  /\ ViewChk(HP, "view-at-heads-equals-interpretation-of-ancestors", O, E.view)
          /\ RichOK(O, E.view, HP)
+         /\ HydOK(E, HP)
          /\ Chk(HP, "fork-at-succeeds", "err" \notin DOMAIN E.fork)
          /\ ("err" \notin DOMAIN E.fork) =>
                /\ Chk(HP, "fork-at-heads-are-the-given-heads", S(E.fork.heads) = H)
